@@ -41,7 +41,7 @@ pub fn cases(prop: &str, seed: u64, tier: &str) -> Vec<String> {
     let mut out = Vec::new();
     match prop {
         "C01" => {
-            big_cases(&mut out, &mut r, QuerySel { class: false, method: false, lines: true, params: false, all_lines: false, both_files: false }, if tier == "quick" { 2 } else { 12 }, false);
+            big_cases(&mut out, &mut r, QuerySel { class: false, method: false, lines: true, params: false, all_lines: false, both_files: false }, if tier == "quick" { 1 } else { 12 }, false);
             let b = budget(tier, 120, 4000);
             for i in 0..b.mappings {
                 let opts = GenOpts { dom: Dom::Representable, max_classes: if i % 12 == 5 { 60 } else { 5 }, noise: true };
@@ -63,7 +63,7 @@ pub fn cases(prop: &str, seed: u64, tier: &str) -> Vec<String> {
             corpus_queries(&mut out, &mut r, QuerySel { class: false, method: false, lines: true, params: false, all_lines: false, both_files: false }, b.thorough);
         }
         "C02" => {
-            big_cases(&mut out, &mut r, QuerySel { class: true, method: true, lines: true, params: true, all_lines: false, both_files: false }, if tier == "quick" { 2 } else { 12 }, true);
+            big_cases(&mut out, &mut r, QuerySel { class: true, method: true, lines: true, params: true, all_lines: false, both_files: false }, if tier == "quick" { 1 } else { 12 }, true);
             let b = budget(tier, 100, 3000);
             for i in 0..b.mappings {
                 let m = if i % 5 == 4 {
@@ -531,7 +531,17 @@ pub fn cases(prop: &str, seed: u64, tier: &str) -> Vec<String> {
                 emit_big_queries(&mut qs, m.as_bytes(), &mut r, QuerySel { class: false, method: false, lines: true, params: false, all_lines: false, both_files: false });
                 let mut text = String::from("x.Unknown: boom\n");
                 let mut n = 0;
-                for q in qs.iter().step_by(16) {
+                // frames of the classes with the most queries (the heavy classes) first, then a sample of the rest
+                let mut per_class: std::collections::BTreeMap<String, usize> = std::collections::BTreeMap::new();
+                for q in &qs {
+                    *per_class.entry(q.split(' ').nth(1).unwrap_or("").to_string()).or_default() += 1;
+                }
+                let mut heavy: Vec<(String, usize)> = per_class.into_iter().collect();
+                heavy.sort_by(|a, b| b.1.cmp(&a.1));
+                let heavy: Vec<String> = heavy.into_iter().take(3).map(|x| x.0).collect();
+                let mut chosen: Vec<&String> = qs.iter().filter(|q| heavy.iter().any(|h| q.split(' ').nth(1) == Some(h.as_str()))).step_by(3).take(90).collect();
+                chosen.extend(qs.iter().step_by(16));
+                for q in chosen {
                     let t: Vec<&str> = q.split(' ').collect();
                     let (c, mth) = (String::from_utf8_lossy(&unhex(t[1])).to_string(), String::from_utf8_lossy(&unhex(t[2])).to_string());
                     if c.chars().any(|x| x.is_whitespace() || x == '(' || x == ':') || mth.contains('.') {
